@@ -83,11 +83,12 @@ def render_and_read_back(v, data, work, counters, has_valid_abbrev=True, has_val
             continue
         for it, f in zip(items, g):
             counters["rendered_items"] = counters.get("rendered_items", 0) + 1
+            # the tables hold minutes: a sub-minute offset is cut toward zero, the way the compiler cuts STDOFF/SAVE in the zone
+            # tables these data are compared with (-0:44:30 -> -0:44), never away from zero
             want = [str(it["epoch"]), str(int(it["total_offset"] / 60)), str(int(it["dst_offset"] / 60)), str(it["y"]), str(it["M"]), str(it["d"]),
                     str(it["h"]), str(it["m"]), str(it["s"]), it["abbrev"] if it["abbrev"] else "<null>", it["type"]]
             if it["total_offset"] % 60 or it["dst_offset"] % 60:
-                counters["info_sub_minute_offsets"] = counters.get("info_sub_minute_offsets", 0) + 1
-                continue
+                counters["rendered_items_with_sub_minute_offsets"] = counters.get("rendered_items_with_sub_minute_offsets", 0) + 1
             if f != want:
                 v.violation("c19:rendering-changes-item", "a rendered item differs from the collected item", {"zone": z, "item": it, "rendered": f})
                 break
@@ -180,6 +181,21 @@ def run(tier):
         few = {z: data[z] for z in sorted(data)[:8]}
         render_and_read_back(v, few, work, tot, has_valid_abbrev=False, has_valid_dst=False, tag="render-flags-off")
         render_and_read_back(v, few, work, tot, has_valid_abbrev=False, has_valid_dst=True, tag="render-abbrev-off")
+    # items with negative and positive sub-minute offsets (pytz rounds to minutes, dateutil does not): years before the zones
+    # moved to whole minutes, collected by the real dateutil generator and rendered
+    try:
+        from compare_dateutil.tdgenerator import TestDataGenerator as DUGen
+        old_data = {}
+        for zn, (sy, uy) in {"Africa/Monrovia": (1970, 1973), "Europe/Amsterdam": (1935, 1938)}.items():   # inside the 32-bit epoch range (1931-12-14 onwards)
+            if zn in dz:
+                items = DUGen(sy, uy, 22, True)._create_test_items_for_zone(zn)
+                if items:
+                    old_data[zn] = items
+        if old_data:
+            tot["old_sub_minute_zones"] = len(old_data)
+            render_and_read_back(v, old_data, work, tot, tag="render-sub-minute")
+    except Exception as e:  # noqa  machinery: the generator itself is judged in the workers
+        v.inconclusive_because("sub-minute rendering set could not be collected: %r" % (e,))
     if tot.get("configs", 0) < 500 or tot.get("library_changes", 0) < 5000 or tot.get("rendered_items", 0) < 5000:
         v.inconclusive_because("deciding counters too low: %r" % tot)
     v.coverage.update({
